@@ -68,3 +68,16 @@ Theorem c13_strict_refuted_save :
   o_outcome (stored_request true true p) = Upstream true /\ o_session_cookie_set (stored_request true true p) = false.
 Proof. exact strict_refuted_save. Qed.
 Print Assumptions c13_strict_refuted_save.
+
+(* the store is down for a whole request (every store operation of the request fails, whatever their
+   number): no flow forwards anything upstream or hands out a session cookie, the login and the
+   sign-out are answered with the error page, the readiness probe says not ready *)
+Theorem c13_outage : forall p,
+  (forall k, call_fails (p k) = true) ->
+  (forall stale idp_ok, is_upstream (o_outcome (stored_request stale idp_ok p)) = false /\
+                        o_session_cookie_set (stored_request stale idp_ok p) = false) /\
+  o_outcome (callback_save p) = ErrorPage /\ o_session_cookie_set (callback_save p) = false /\
+  o_outcome (sign_out p) = ErrorPage /\
+  o_outcome (ready_probe p) = NotReady.
+Proof. exact outage_fails_closed. Qed.
+Print Assumptions c13_outage.
